@@ -412,6 +412,7 @@ func CheckC11(c *Ctx) {
 	c.timeLayouts()
 	c.jsonSeparators()
 	c.columnTable()
+	c.headerKeys()
 	// a field without a format tag is written and parsed with the documented default layout
 	c.defaultsUsed("codec-agreement/default-layout", "helper")
 	c.Run.Floor("default_constants", 2)
@@ -1531,4 +1532,91 @@ func isNumFieldCall(e ast.Expr) bool {
 	}
 	sel, ok := call.Fun.(*ast.SelectorExpr)
 	return ok && sel.Sel.Name == "NumField"
+}
+
+// headerKeys: the reader finds a column by looking its declared name up in a map built from the
+// file's header row; the writer emits the declared name as it is. Both sides of the map must
+// therefore use the same function of the name: the key stored for a file header and the key
+// looked up for a column are both the raw string, or both go through the same call. (Trimming
+// only the file's side loses every column whose declared name has blanks at its ends.)
+func (c *Ctx) headerKeys() {
+	run := c.Run
+	run.Explanation += " The header map of the CSV reader is stored and looked up under the same function of the column name."
+	// rooted at the exported reader: the map lives in an unexported helper of it today
+	fi := c.fn("helper", "Csv", "ReadFromReader")
+	if fi == nil {
+		return
+	}
+	info := fi.Pkg.TypesInfo
+	type use struct {
+		wrapper string
+		pos     token.Pos
+		text    string
+	}
+	var stores, lookups []use
+	for _, member := range c.family(fi) {
+		if member.Decl.Body == nil {
+			continue
+		}
+		lhs := map[ast.Expr]bool{}
+		ast.Inspect(member.Decl.Body, func(nd ast.Node) bool {
+			if as, ok := nd.(*ast.AssignStmt); ok {
+				for _, l := range as.Lhs {
+					lhs[ast.Unparen(l)] = true
+				}
+			}
+			return true
+		})
+		ast.Inspect(member.Decl.Body, func(nd ast.Node) bool {
+			ix, ok := nd.(*ast.IndexExpr)
+			if !ok {
+				return true
+			}
+			mt, isMap := info.TypeOf(ix.X).Underlying().(*types.Map)
+			if !isMap || !types.Identical(mt.Key(), types.Typ[types.String]) {
+				return true
+			}
+			if b, isB := mt.Elem().Underlying().(*types.Basic); !isB || b.Kind() != types.Int {
+				return true
+			}
+			key, _ := c.origin(info, member.Decl, ix.Index, 0)
+			w := ""
+			if call, isCall := ast.Unparen(key).(*ast.CallExpr); isCall {
+				w = calleeName(info, call)
+				if w == "" {
+					w = exprString(call.Fun)
+				}
+			}
+			u := use{w, ix.Pos(), exprString(ix.Index)}
+			if lhs[ix] {
+				stores = append(stores, u)
+			} else {
+				lookups = append(lookups, u)
+			}
+			return true
+		})
+	}
+	run.Count("header_map_uses", len(stores)+len(lookups))
+	run.Floor("header_map_uses", 2)
+	why := ""
+	var at token.Pos
+	for _, s := range stores {
+		for _, l := range lookups {
+			if s.wrapper != l.wrapper && why == "" {
+				sw, lw := s.wrapper, l.wrapper
+				if sw == "" {
+					sw = "the raw string"
+				}
+				if lw == "" {
+					lw = "the raw string"
+				}
+				why = fmt.Sprintf("the file's header is stored under %s (%s), the column's name is looked up as %s (%s)", sw, s.text, lw, l.text)
+				at = s.pos
+			}
+		}
+	}
+	run.Oblige(why == "")
+	if why != "" {
+		c.violate("codec-agreement/header-keys", load.FuncName(fi.Fn), "key functions differ", at, "the header map must be stored and looked up under the same function of the name: "+why+": a column whose declared name the two sides render differently is written but never found again")
+	}
 }
